@@ -210,3 +210,22 @@ where
         last = p;
     }
 }
+
+/// stderr logger for debugging sessions (`VC_DEBUG=1`); never enabled in normal runs
+pub struct StderrLog;
+impl log::Log for StderrLog {
+    fn enabled(&self, _: &log::Metadata) -> bool {
+        true
+    }
+    fn log(&self, r: &log::Record) {
+        eprintln!("[{}] {}", r.target(), r.args());
+    }
+    fn flush(&self) {}
+}
+pub fn debug_logging() {
+    if std::env::var("VC_DEBUG").is_ok() {
+        static L: StderrLog = StderrLog;
+        let _ = log::set_logger(&L);
+        log::set_max_level(log::LevelFilter::Trace);
+    }
+}
